@@ -182,23 +182,28 @@ def normPubidGo : Bool → Str → Str
 def normPubid (s : Str) : Str := normPubidGo false (s.dropWhile fun c => c = ' ' || c = '\r' || c = '\n')
 
 /-- `<?xml version="…" [encoding="…"] [standalone="yes|no"]?>` after `<?xml` -/
-def takeDecl (s : Str) : Option (FEv × Str) := do
-  let (v, s1) ← takePseudo ['v', 'e', 'r', 's', 'i', 'o', 'n'] s
-  if !validVersion v then none
-  let (enc, s2) :=
-    match takePseudo ['e', 'n', 'c', 'o', 'd', 'i', 'n', 'g'] s1 with
-    | some (e, r) => (some e, r)
-    | none => (none, s1)
-  if !(enc.map validEncName).getD true then none
-  let (sa, s3) ←
-    match takePseudo ['s', 't', 'a', 'n', 'd', 'a', 'l', 'o', 'n', 'e'] s2 with
-    | some (['y', 'e', 's'], r) => some ((1 : Int), r)
-    | some (['n', 'o'], r) => some ((0 : Int), r)
-    | some _ => none
-    | none => some ((-1 : Int), s2)
-  match dropSpaces s3 with
-  | '?' :: '>' :: rest => some (.other (.xmlDecl v enc sa), rest)
-  | _ => none
+def takeDecl (s : Str) : Option (FEv × Str) :=
+  match takePseudo ['v', 'e', 'r', 's', 'i', 'o', 'n'] s with
+  | none => none
+  | some (v, s1) =>
+    if !validVersion v then none else
+    let es2 : Option Str × Str :=
+      match takePseudo ['e', 'n', 'c', 'o', 'd', 'i', 'n', 'g'] s1 with
+      | some (e, r) => (some e, r)
+      | none => (none, s1)
+    if !(es2.1.map validEncName).getD true then none else
+    let sa3 : Option (Int × Str) :=
+      match takePseudo ['s', 't', 'a', 'n', 'd', 'a', 'l', 'o', 'n', 'e'] es2.2 with
+      | some (['y', 'e', 's'], r) => some (1, r)
+      | some (['n', 'o'], r) => some (0, r)
+      | some _ => none
+      | none => some (-1, es2.2)
+    match sa3 with
+    | none => none
+    | some (sa, s3) =>
+      match dropSpaces s3 with
+      | '?' :: '>' :: rest => some (.other (.xmlDecl v es2.1 sa), rest)
+      | _ => none
 
 /-- split `prefix:local`; `none` when there is more than one colon or a part is empty -/
 def splitQ (n : Str) : Option (Str × Str) :=
